@@ -19,13 +19,14 @@ from pandera.api.pandas.types import (
 from pandera.backends.base import CoreCheckResult
 from pandera.backends.pandas.array import ArraySchemaBackend
 from pandera.backends.pandas.container import DataFrameSchemaBackend
+from pandera.config import ValidationScope
 from pandera.errors import (
     SchemaDefinitionError,
     SchemaError,
     SchemaErrorReason,
     SchemaErrors,
 )
-from pandera.validation_depth import validation_type
+from pandera.validation_depth import validate_scope, validation_type
 
 
 class ColumnBackend(ArraySchemaBackend):
@@ -229,6 +230,7 @@ class ColumnBackend(ArraySchemaBackend):
             axis="columns",
         )
 
+    @validate_scope(scope=ValidationScope.DATA)
     def run_checks(self, check_obj, schema):
         check_results: List[CoreCheckResult] = []
         for check_index, check in enumerate(schema.checks):
